@@ -119,6 +119,14 @@ def run(ctx: Ctx):
         if ast.unparse(s.arg("solution")) != "None":
             ctx.ob("C13-O1", "R5 PAIRING", k, "published (edges, weight) are the accumulated pair", ast.unparse(s.arg("solution")) == "mst_edges" and ast.unparse(s.arg("objective")) == "total_weight", "", node=s.call)
 
+    # the reported weight is the sum of the accepted edges' weights and nothing else: one zero initialisation, the
+    # in-scan increments, no other write (rounding, rescaling, re-summing from another source)
+    for fn_ in (k, ctx.func("mst", "prim")):
+        ws = [n for n in ast.walk(fn_.node) if isinstance(n, (ast.Assign, ast.AugAssign, ast.AnnAssign)) and any(isinstance(x, ast.Name) and x.id == "total_weight" for t in (n.targets if isinstance(n, ast.Assign) else [n.target]) for x in ast.walk(t))]
+        inits = [n for n in ws if isinstance(n, (ast.Assign, ast.AnnAssign)) and ast.unparse(n.value) in ("0.0", "0")]
+        incs = [n for n in ws if isinstance(n, ast.AugAssign) and isinstance(n.op, ast.Add)]
+        other = [n for n in ws if n not in inits and n not in incs]
+        ctx.ob("C13-O1" if fn_ is k else "C13-O2", "R30 ACCUMULATOR-PAIRING", fn_, f"{fn_.name}: the total weight is written only by its zero initialisation and the per-edge increments", len(inits) == 1 and not other, f"`{ast.unparse(other[0])[:60] if other else ''}`: any other write makes the objective something else than the sum of the returned edges' weights (a rounded total is not the total for weights around 1e-10, and no longer agrees with the other algorithm)", node=other[0] if other else fn_.node)
     # O2 prim
     p = ctx.func("mst", "prim")
     cfg = cfg_of(p.node)
@@ -277,6 +285,14 @@ def _v_kruskal_final_return_deleted(tree):
     g.body = g.body[:-1] + [ast.Pass()]
 
 
+def _v_kruskal_rounds_total(tree):
+    g = M.find_func(tree, "kruskal")
+    idx = [i for i, st_ in enumerate(g.body) if isinstance(st_, ast.If) and M.src_has(st_.test, "len(mst_edges) < n_nodes - 1")]
+    if not idx:
+        raise M.Skip("verdict block not found")
+    g.body.insert(idx[0], M.stmts("total_weight = round(total_weight, 10)")[0])
+
+
 def _v_prim_start_sentinel(tree):
     g = M.find_func(tree, "prim")
     tree.body.insert(tree.body.index(M.find_func(tree, "kruskal")), M.stmts("_UNSET = object()")[0])
@@ -353,6 +369,7 @@ VARIANTS = [
     M.Variant("kruskal's final return is missing", MS, _v_kruskal_final_return_deleted, "C13-G6"),
     M.Variant("prim drops the tie-breaking counter from its heap entries (seed C13-H)", MS, _v_prim_no_tiebreak, "C13-O2"),
     M.Variant("prim's `start` defaults to a private sentinel, so an explicit None becomes a node label (seed C13-J)", MS, _v_prim_start_sentinel, "C13-G9"),
+    M.Variant("kruskal rounds the total weight to 10 digits before reporting it (seed C13-M)", MS, _v_kruskal_rounds_total, "C13-O1"),
     M.Variant("check_positive rejects the value 1", "solvor/utils/validate.py", _v_validator_rejects_one, "C13-G7"),
     M.Variant("Result defaults to FEASIBLE", "solvor/types.py", _v_result_default_status, "C13-G7"),
     M.Variant("twin: reformat", MS, _t_reformat, None),
